@@ -1,7 +1,7 @@
 //! C16: drives SocketAddrs::{set_port, sort_preferred, pop} and TcpTransport::connecting
 //! through the verif-hooks wrappers.
 //!
-//! case line:  <mode> <bind4> <bind6> <he> <port> <addr>,<addr>,...    addr = 4:<id>:<port> | 6:<id>:<port>
+//! case line:  <mode> <bind4> <bind6> <he> <port> <addr>,<addr>,...    addr = 4:<id>:<port> | 6:<id>:<port>  (IPv6 id = low + 64*scope_id + 4096*flowinfo)
 //!   mode s = raw sort_preferred with prefer in bind4 field (4|6|n), he = sort flag
 //!   mode t = TcpTransport::verif_attempt_order with config (bind4, bind6, he_timeout set?)
 //! output line: same addr syntax, comma separated ("-" for empty)
@@ -20,10 +20,13 @@ fn parse_addr(s: &str) -> SocketAddr {
     let port: u16 = it.next().unwrap().parse().unwrap();
     match fam {
         "4" => SocketAddr::new(IpAddr::V4(Ipv4Addr::from(0x0a00_0000u32 + id)), port),
-        "6" => SocketAddr::new(
-            IpAddr::V6(Ipv6Addr::from((0xfd00u128 << 112) + id as u128)),
+        // id = low + 64 * scope_id + 4096 * flowinfo: zoned / flow-labelled IPv6 addresses are distinct addresses
+        "6" => SocketAddr::V6(std::net::SocketAddrV6::new(
+            Ipv6Addr::from((0xfd00u128 << 112) + (id % 64) as u128),
             port,
-        ),
+            id / 4096,
+            (id / 64) % 64,
+        )),
         _ => panic!("bad family"),
     }
 }
@@ -31,11 +34,17 @@ fn parse_addr(s: &str) -> SocketAddr {
 fn show_addr(a: &SocketAddr) -> String {
     match a.ip() {
         IpAddr::V4(ip) => format!("4:{}:{}", u32::from(ip) - 0x0a00_0000u32, a.port()),
-        IpAddr::V6(ip) => format!(
-            "6:{}:{}",
-            (u128::from(ip) - (0xfd00u128 << 112)) as u32,
-            a.port()
-        ),
+        IpAddr::V6(ip) => {
+            let (scope, flow) = match a {
+                SocketAddr::V6(v6) => (v6.scope_id(), v6.flowinfo()),
+                _ => (0, 0),
+            };
+            format!(
+                "6:{}:{}",
+                (u128::from(ip) - (0xfd00u128 << 112)) as u32 + 64 * scope + 4096 * flow,
+                a.port()
+            )
+        }
     }
 }
 
